@@ -904,14 +904,20 @@ pub fn sub_options(o: &rc::SubOpts) -> SubscriptionOptions {
 }
 
 pub fn copy_message(m: &InboundPublish<'_>) -> Delivered {
+    // (bounded: a property takes at least two bytes, so no packet the harness ever delivers holds
+    // more than 50 000 of them; an iterator that does not terminate must not eat the memory - and
+    // then the accessors, which walk the same iterator inside the client, are not called at all)
+    const CAP: usize = 50_000;
+    let props: Vec<Result<Prop, ()>> = m.properties().iter().take(CAP).map(|r| r.map(|p| from_property(&p)).map_err(|_| ())).collect();
+    let runaway = props.len() >= CAP;
     Delivered {
         topic: m.topic().to_string(),
         payload: m.payload().to_vec(),
         qos: m.qos() as u8,
         retain: m.retained(),
-        props: m.properties().iter().map(|r| r.map(|p| from_property(&p)).map_err(|_| ())).collect(),
-        response_topic: m.response_topic().map(|s| s.to_string()),
-        correlation_data: m.correlation_data().map(|s| s.to_vec()),
+        response_topic: if runaway { None } else { m.response_topic().map(|s| s.to_string()) },
+        correlation_data: if runaway { None } else { m.correlation_data().map(|s| s.to_vec()) },
+        props,
     }
 }
 
